@@ -336,6 +336,19 @@ def generate(seed):
                 dd["examples"] = ["ex 1\n", "ex 2"]
             add("doc", dd)
 
+    # aliasing INSIDE one spec: the same sub-structure at two positions
+    conds_i = [i for i, k in enumerate(kinds) if k == "cond"]
+    parts_i = [i for i, k in enumerate(kinds) if k == "part"]
+    if conds_i and r.random() < 0.5:
+        a = r.choice(conds_i)
+        b = a if r.random() < 0.6 else r.choice(conds_i)
+        add("cond", {r.choice(["and", "or", "xor"]): [("sref", a), ("sref", b)] + ([("sref", a)] if r.random() < 0.3 else [])})
+    if parts_i and r.random() < 0.5:
+        a = r.choice(parts_i)
+        add("partlist", [("sref", a), r.choice(["a", 0, "k1"]), ("sref", a)])
+        if r.random() < 0.5:
+            add("pathspec", {"path": [("sref", a), ("sref", a)]})
+
     def gen_rule():
         rule = {}
         pl = pick("partlist")
